@@ -10,6 +10,7 @@ package rules
 
 import (
 	"go/ast"
+	"go/token"
 	"go/types"
 
 	"fpcheck/core"
@@ -329,4 +330,164 @@ func FailStop(c *core.Ctx, rule string, pkgs []*packages.Package, floorPairs int
 		}
 	}
 	c.Floor(rule, "ordered pairs of runs in one state function", nPairs, floorPairs)
+}
+
+// FailState — R-FAILSTATE: the state reported with a failure is a state, not the payload of the failed step.
+//
+// A StateT step whose new state is the payload of a Try (ModifyT: f(s) is a Try[S]) may return that payload as the
+// state only where the Try is known to be a success. On the failure side the payload is the zero value (Unapply) or
+// absent (Get panics): returning it loses "the state at the point of failure".
+func FailState(c *core.Ctx, rule string, pkgs []*packages.Package, floor int) {
+	c.Rule(rule, "in every func(S)(Try[_],S) literal, a returned state that is the payload of a Try (x of `x, err := t.Unapply()`, or t.Get()) is returned only on paths that passed the success edge of a test of that Try (err == nil / t.IsSuccess()); every other return reports a state variable")
+	nRet := 0
+	for _, fb := range funcBodies(c, pkgs) {
+		if fb.Lit == nil {
+			continue
+		}
+		info := fb.Pkg.TypesInfo
+		tv, ok := info.Types[fb.Lit]
+		if !ok {
+			continue
+		}
+		sig, _ := tv.Type.Underlying().(*types.Signature)
+		if stateShape(sig) == nil {
+			continue
+		}
+		g := newCFG(c, fb)
+		// payload bindings
+		type payload struct {
+			val   types.Object // x (Unapply) — nil for the Get form
+			test  types.Object // err, or the Try variable
+			isErr bool
+			blk   *cfg.Block
+			idx   int
+		}
+		var pls []payload
+		tryVars := map[types.Object]bool{}
+		for _, b := range g.Blocks {
+			for i, nd := range b.Nodes {
+				as, ok := nd.(*ast.AssignStmt)
+				if !ok {
+					continue
+				}
+				if len(as.Lhs) == 2 && len(as.Rhs) == 1 {
+					if call, ok := ast.Unparen(as.Rhs[0]).(*ast.CallExpr); ok && len(call.Args) == 0 {
+						if sel, ok := ast.Unparen(call.Fun).(*ast.SelectorExpr); ok && sel.Sel.Name == "Unapply" {
+							if rtv, ok := info.Types[sel.X]; ok && isNamed(rtv.Type, "fp", "Try") {
+								pls = append(pls, payload{val: objOf(info, as.Lhs[0]), test: objOf(info, as.Lhs[1]), isErr: true, blk: b, idx: i})
+							}
+						}
+					}
+				}
+				if len(as.Lhs) == 1 && len(as.Rhs) == 1 {
+					if o := objOf(info, as.Lhs[0]); o != nil && isNamed(o.Type(), "fp", "Try") {
+						if !tryVars[o] {
+							tryVars[o] = true
+							pls = append(pls, payload{test: o, blk: b, idx: i})
+						}
+					}
+				}
+			}
+		}
+		// state results of the returns
+		mentionsPayload := func(e ast.Expr, p payload) bool {
+			return nodeContains(e, true, func(x ast.Node) bool {
+				if p.isErr {
+					id, ok := x.(*ast.Ident)
+					return ok && p.val != nil && info.Uses[id] == p.val
+				}
+				call, ok := x.(*ast.CallExpr)
+				if !ok || len(call.Args) != 0 {
+					return false
+				}
+				sel, ok := ast.Unparen(call.Fun).(*ast.SelectorExpr)
+				return ok && sel.Sel.Name == "Get" && objOf(info, sel.X) == p.test
+			})
+		}
+		// successEdge(cond): 0 = the true successor is the success side, 1 = the false successor, -1 = not a test of p
+		successEdge := func(cond ast.Expr, p payload) int {
+			cond = ast.Unparen(cond)
+			if p.isErr {
+				if be, ok := cond.(*ast.BinaryExpr); ok && (be.Op == token.EQL || be.Op == token.NEQ) {
+					x, y := ast.Unparen(be.X), ast.Unparen(be.Y)
+					if isNilIdent(info, x) {
+						x, y = y, x
+					}
+					if isNilIdent(info, y) && objOf(info, x) == p.test && p.test != nil {
+						if be.Op == token.EQL {
+							return 0
+						}
+						return 1
+					}
+				}
+				return -1
+			}
+			if m, pol, ok := successTest(info, cond); ok && m == p.test {
+				if pol {
+					return 0
+				}
+				return 1
+			}
+			return -1
+		}
+		k := 0
+		for _, p := range pls {
+			// is there any return using this payload as the state?
+			type hit struct{ ret *ast.ReturnStmt }
+			var bad *ast.ReturnStmt
+			seen := map[*cfg.Block]bool{}
+			any := false
+			var scan func(b *cfg.Block, from int)
+			scan = func(b *cfg.Block, from int) {
+				if bad != nil {
+					return
+				}
+				for i := from; i < len(b.Nodes); i++ {
+					if ret, ok := b.Nodes[i].(*ast.ReturnStmt); ok && len(ret.Results) == 2 && mentionsPayload(ret.Results[1], p) {
+						bad = ret
+						return
+					}
+				}
+				edge := -1
+				if len(b.Succs) == 2 && len(b.Nodes) > 0 {
+					if e, ok := b.Nodes[len(b.Nodes)-1].(ast.Expr); ok {
+						edge = successEdge(e, p)
+					}
+				}
+				for si, s := range b.Succs {
+					if edge >= 0 && si == edge {
+						continue // success established beyond this edge
+					}
+					if !seen[s] {
+						seen[s] = true
+						scan(s, 0)
+					}
+				}
+			}
+			// does any return use the payload at all?
+			ast.Inspect(fb.Lit.Body, func(x ast.Node) bool {
+				if ret, ok := x.(*ast.ReturnStmt); ok && len(ret.Results) == 2 && mentionsPayload(ret.Results[1], p) {
+					any = true
+				}
+				return true
+			})
+			if !any {
+				continue
+			}
+			k++
+			nRet++
+			key := fb.Name + "/payload#" + itoa(k)
+			scan(p.blk, p.idx+1)
+			if bad != nil {
+				what := "the Try's payload"
+				if p.val != nil {
+					what = p.val.Name()
+				}
+				c.Add(rule, key, bad.Pos(), core.Violated, "`"+nodeString(c, bad)+"` reports "+what+" as the state on a path where the step has not been shown to succeed: after a failure the payload is the zero value, not the state at the point of failure (every Recover* then hands its handler that zero state)")
+			} else {
+				c.Add(rule, key, fb.Lit.Pos(), core.Discharged, "payload used as state only behind the success edge")
+			}
+		}
+	}
+	c.Floor(rule, "state results taken from a Try payload", nRet, floor)
 }
